@@ -57,11 +57,22 @@ Patch(b, pos, d) ==
 
 IsPrefixOf(a, b) == Len(a) <= Len(b) /\ SubSeq(b, 1, Len(a)) = a
 
-RECURSIVE Concat(_)
-Concat(ss) == IF ss = << >> THEN << >> ELSE Head(ss) \o Concat(Tail(ss))
+\* Recursions over long sequences are BALANCED (depth log n): a recursion as deep as the sequence is
+\* long makes every garbage collection of the JVM scan a stack of thousands of frames, which turned
+\* a 3 300-point record into 15 s of decoding (DESIGN 10.2).
+RECURSIVE ConcatR(_, _, _)
+ConcatR(ss, lo, hi) ==      \* ss[lo] \o ... \o ss[hi]
+    IF hi < lo THEN << >>
+    ELSE IF hi = lo THEN ss[lo]
+    ELSE LET mid == (lo + hi) \div 2 IN ConcatR(ss, lo, mid) \o ConcatR(ss, mid + 1, hi)
+Concat(ss) == ConcatR(ss, 1, Len(ss))
 
-RECURSIVE SumSeq(_)
-SumSeq(s) == IF s = << >> THEN 0 ELSE Head(s) + SumSeq(Tail(s))
+RECURSIVE SumR(_, _, _)
+SumR(s, lo, hi) ==
+    IF hi < lo THEN 0
+    ELSE IF hi = lo THEN s[lo]
+    ELSE LET mid == (lo + hi) \div 2 IN SumR(s, lo, mid) + SumR(s, mid + 1, hi)
+SumSeq(s) == SumR(s, 1, Len(s))
 
 Min2(a, b) == IF a < b THEN a ELSE b
 Max2(a, b) == IF a > b THEN a ELSE b
